@@ -1864,6 +1864,39 @@ def normalise_table_unroll(tree):
     return n
 
 
+def normalise_try_getattr(tree):
+    """`try: x = o.attr` / `except AttributeError: x = D` (nothing else; o a plain name, D a literal or an empty display) is
+    `x = getattr(o, "attr", D)`"""
+    n = 0
+
+    def literal(d):
+        return isinstance(d, ast.Constant) or (isinstance(d, (ast.Dict, ast.List, ast.Tuple, ast.Set)) and not getattr(d, "keys", None) and not getattr(d, "elts", None))
+
+    for node in ast.walk(tree):
+        for field in ("body", "orelse", "finalbody"):
+            stmts = getattr(node, field, None)
+            if not isinstance(stmts, list) or not stmts or not isinstance(stmts[0], ast.stmt):
+                continue
+            for i, st in enumerate(list(stmts)):
+                if not (isinstance(st, ast.Try) and len(st.body) == 1 and len(st.handlers) == 1 and not st.orelse and not st.finalbody):
+                    continue
+                b, h = st.body[0], st.handlers[0]
+                if not (isinstance(b, ast.Assign) and len(b.targets) == 1 and isinstance(b.targets[0], ast.Name) and isinstance(b.value, ast.Attribute)
+                        and isinstance(b.value.value, ast.Name) and not b.value.attr.startswith("__")):
+                    continue
+                if not (isinstance(h.type, ast.Name) and h.type.id == "AttributeError" and h.name is None and len(h.body) == 1 and isinstance(h.body[0], ast.Assign)
+                        and len(h.body[0].targets) == 1 and isinstance(h.body[0].targets[0], ast.Name) and h.body[0].targets[0].id == b.targets[0].id
+                        and literal(h.body[0].value)):
+                    continue
+                new = ast.Assign(targets=[b.targets[0]], value=ast.Call(func=ast.Name(id="getattr", ctx=ast.Load()),
+                                                                         args=[b.value.value, ast.Constant(value=b.value.attr), h.body[0].value], keywords=[]))
+                ast.copy_location(new, st)
+                ast.fix_missing_locations(new)
+                stmts[stmts.index(st)] = new
+                n += 1
+    return n
+
+
 def normalise_local_lambdas(tree, known):
     """a nested `def g(a, b): [del b]; return E` that is new with respect to the pinned inventory and whose name is only read in the
     enclosing function is the value `lambda a, b: E` (deleting an unused parameter has no effect); uses of g become that lambda."""
@@ -1967,6 +2000,7 @@ def normalise_program(trees):
             k_ = normalise_ifexp(tree)
         n_ += normalise_shortcircuit(tree)
         n_ += normalise_table_unroll(tree)
+        n_ += normalise_try_getattr(tree)
         if n_:
             reshaped[path] = n_
     inv0 = inventory()
@@ -2096,6 +2130,7 @@ def normalise_program(trees):
             while normalise_ifexp(tree):
                 pass
             normalise_shortcircuit(tree)
+            normalise_try_getattr(tree)
             ast.fix_missing_locations(tree)
     for path, n_ in reshaped.items():
         stats[path] = stats.get(path, 0) + n_
